@@ -40,6 +40,7 @@ struct family {
 	struct fpart pre[6];
 	struct fpart suf[4];
 	int keyparts;		/* which coordinates make the class key: 1 value, 2 tail, 4 prefix */
+	const char *dadd_extra;	/* dadd's duration if not +1d */
 };
 
 static const struct family fams[] = {
@@ -88,6 +89,80 @@ static const struct family fams[] = {
 	 {{" and ", "then-compact", TL_VALUE, "20120306", 0}, {" and ", "then-slashed", TL_VALUE, "07/03/2012", 0}, {NULL, NULL, 0, NULL, 0}},
 	 {{"", "line-start"}, {"x ", "letters-blank"}, {NULL, NULL}},
 	 {{"", "end"}, {" x", "blank"}, {NULL, NULL}}, 3},
+	/* ---- audit round 2 ---- */
+	/* reading: a minus directly in front of the digits at line start, behind `=` or a blank is the sign:
+	 * that is how the tools themselves read stamps of up to 10 digits */
+	{"epoch-literal-negative", 3, {"-i", "%s;", "-f", "%FT%T;", NULL},
+	 {{"-86400;", "5-digits"}, {"-9999999999;", "10-digits"}, {"-11644473600;", "11-digits"}, {"11644473600;", "11-digits-positive"}, {NULL, NULL}},
+	 {{"", "none", TL_COPY, NULL, 0}, {NULL, NULL, 0, NULL, 0}},
+	 {{"", "line-start"}, {"t=", "equals-sign"}, {"t ", "blank"}, {NULL, NULL}},
+	 {{"", "end"}, {" x", "blank"}, {NULL, NULL}}, 1, NULL},
+	{"roman-month-first", 7, {"-i", "%Om %d %Y", "-f", "%F", NULL},
+	 {{"I 4 2012", "1-letter"}, {"III 4 2012", "3-letters"}, {"VIII 4 2012", "4-letters"}, {"XII 4 2012", "XII"}, {NULL, NULL}},
+	 {{"", "none", TL_COPY, NULL, 0}, {NULL, NULL, 0, NULL, 0}},
+	 {{"", "line-start"}, {"a ", "blank"}, {NULL, NULL}},
+	 {{"", "end"}, {" x", "blank"}, {NULL, NULL}}, 1, NULL},
+	{"roman-all", 7, {"-i", "%Od %Om %OY", "-f", "%F", NULL},
+	 {{"IV III MMXII", "2-letter-day"}, {"XIV III MMXII", "3-letter-day"}, {"XXVIII II MMXII", "6-letter-day"}, {NULL, NULL}},
+	 {{"", "none", TL_COPY, NULL, 0}, {NULL, NULL, 0, NULL, 0}},
+	 {{"", "line-start"}, {"a ", "blank"}, {NULL, NULL}},
+	 {{"", "end"}, {" x", "blank"}, {NULL, NULL}}, 1, NULL},
+	{"ordinal-only", 1, {"-i", "%dth", "-f", "<%d>", "-b", "2012-01-01", NULL},
+	 {{"3rd", "1-digit"}, {"21st", "2-digits"}, {NULL, NULL}},
+	 {{"", "none", TL_COPY, NULL, 0}, {" and ", "then-ordinal", TL_VALUE, "4th", 0}, {NULL, NULL, 0, NULL, 0}},
+	 {{"", "line-start"}, {"on ", "blank"}, {"room 45 on ", "other-number-before"}, {"45 ", "other-number-at-line-start"}, {NULL, NULL}},
+	 {{"", "end"}, {" x", "blank"}, {NULL, NULL}}, 4, NULL},
+	{"non-ascii-sibling", 7, {"-i", "%d\xc2\xa7%m\xc2\xa7%Y", "-i", "%Y%m%d", "-f", "<%F>", NULL},
+	 {{"20120101", "compact"}, {"01\xc2\xa702\xc2\xa72012", "with-the-non-ascii-literal"}, {NULL, NULL}},
+	 {{"", "none", TL_COPY, NULL, 0}, {NULL, NULL, 0, NULL, 0}},
+	 {{"", "line-start"}, {"a ", "blank"}, {NULL, NULL}},
+	 {{"", "end"}, {" b", "blank"}, {NULL, NULL}}, 1, NULL},
+	{"bizda-first", 7, {"-i", "%db/%m/%Y", "-f", "%F", NULL},
+	 {{"13b/03/2012", "2-digits"}, {"03b/03/2012", "zero-padded"}, {NULL, NULL}},
+	 {{"", "none", TL_COPY, NULL, 0}, {NULL, NULL, 0, NULL, 0}},
+	 {{"", "line-start"}, {"x ", "blank"}, {NULL, NULL}},
+	 {{"", "end"}, {" y", "blank"}, {NULL, NULL}}, 1, NULL},
+	{"T-behind-digits", 7, {"-i", "%Y%m%d%T", "-f", "%FT%T", NULL},
+	 {{"2012030112:34:56", "compact-date-then-time"}, {NULL, NULL}},
+	 {{"", "none", TL_COPY, NULL, 0}, {NULL, NULL, 0, NULL, 0}},
+	 {{"", "line-start"}, {"x ", "blank"}, {NULL, NULL}},
+	 {{"", "end"}, {" y", "blank"}, {NULL, NULL}}, 1, NULL},
+	{"F-behind-name", 7, {"-i", "%a%F", "-f", "%F", NULL},
+	 {{"Thu2012-03-01", "weekday-then-date"}, {NULL, NULL}},
+	 {{"", "none", TL_COPY, NULL, 0}, {NULL, NULL, 0, NULL, 0}},
+	 {{"", "line-start"}, {"x ", "blank"}, {NULL, NULL}},
+	 {{"", "end"}, {" y", "blank"}, {NULL, NULL}}, 1, NULL},
+	{"F-behind-hour", 7, {"-i", "%H%F", "-f", "%FT%T", NULL},
+	 {{"122012-03-01", "hour-then-date"}, {NULL, NULL}},
+	 {{"", "none", TL_COPY, NULL, 0}, {NULL, NULL, 0, NULL, 0}},
+	 {{"", "line-start"}, {"x ", "blank"}, {NULL, NULL}},
+	 {{"", "end"}, {" y", "blank"}, {NULL, NULL}}, 1, NULL},
+	{"blank-padded-date", 7, {"-i", "%Y% m% d", "-f", "%F", NULL},
+	 {{"2012 3 1", "both-padded"}, {"20121231", "none-padded"}, {"2012 312", "month-padded"}, {"201212 1", "day-padded"}, {NULL, NULL}},
+	 {{"", "none", TL_COPY, NULL, 0}, {NULL, NULL, 0, NULL, 0}},
+	 {{"", "line-start"}, {"x ", "blank"}, {NULL, NULL}},
+	 {{"", "end"}, {" y", "blank"}, {NULL, NULL}}, 1, NULL},
+	{"blank-padded-time", 1, {"-i", "%H% M% S", "-f", "%T", NULL},
+	 {{"12 4 5", "both-padded"}, {"121314", "none-padded"}, {NULL, NULL}},
+	 {{"", "none", TL_COPY, NULL, 0}, {NULL, NULL, 0, NULL, 0}},
+	 {{"", "line-start"}, {"x ", "blank"}, {NULL, NULL}},
+	 {{"", "end"}, {" y", "blank"}, {NULL, NULL}}, 1, NULL},
+	/* calendar names as -i: the time of day behind the date belongs to the value (dadd +1s shows it) */
+	{"calendar-name-ymd", 2, {"-i", "ymd", NULL},
+	 {{"2012-02-29T23:59:59", "date-time"}, {"2012-02-29", "date"}, {NULL, NULL}},
+	 {{"", "none", TL_COPY, NULL, 0}, {NULL, NULL, 0, NULL, 0}},
+	 {{"", "line-start"}, {"x ", "blank"}, {NULL, NULL}},
+	 {{"", "end"}, {" y", "blank"}, {NULL, NULL}}, 1, "+1s"},
+	{"calendar-name-yd", 2, {"-i", "yd", NULL},
+	 {{"2012-060T23:59:59", "date-time"}, {"2012-060", "date"}, {NULL, NULL}},
+	 {{"", "none", TL_COPY, NULL, 0}, {NULL, NULL, 0, NULL, 0}},
+	 {{"", "line-start"}, {"x ", "blank"}, {NULL, NULL}},
+	 {{"", "end"}, {" y", "blank"}, {NULL, NULL}}, 1, "+1s"},
+	{"calendar-name-ywd", 2, {"-i", "ywd", NULL},
+	 {{"2012-W09-3T23:59:59", "date-time"}, {"2012-W09-3", "date"}, {NULL, NULL}},
+	 {{"", "none", TL_COPY, NULL, 0}, {NULL, NULL, 0, NULL, 0}},
+	 {{"", "line-start"}, {"x ", "blank"}, {NULL, NULL}},
+	 {{"", "end"}, {" y", "blank"}, {NULL, NULL}}, 1, "+1s"},
 };
 #define NFAM	((int)(sizeof(fams) / sizeof(*fams)))
 
@@ -134,7 +209,7 @@ fam_argmode(const struct family *f, const char *value)
 static char*
 fam_argmode1(const struct family *f, const char *value)
 {
-	const char *av[12];
+	const char *av[16];
 	int n = 0;
 	struct fs_result r;
 	struct fs_opts o;
@@ -145,9 +220,12 @@ fam_argmode1(const struct family *f, const char *value)
 	for (int i = 0; f->opts[i]; i++) {
 		av[n++] = f->opts[i];
 	}
+	if (value[0] == '-') {
+		av[n++] = "--";
+	}
 	av[n++] = value;
 	if (fam_extra) {
-		av[n++] = fam_extra;
+		av[n++] = (FAM_TOOLBIT == 2 && f->dadd_extra) ? f->dadd_extra : fam_extra;
 	}
 	memset(&o, 0, sizeof(o));
 	o.env = env;
@@ -165,7 +243,7 @@ fam_argmode1(const struct family *f, const char *value)
 static void
 fam_run(const struct family *f, const char *in, size_t len, const int *chunks, int nchunks, struct fs_result *r)
 {
-	const char *av[12];
+	const char *av[16];
 	int n = 0;
 	struct fs_opts o;
 	static const char *const env[] = {"LC_ALL=C", "TZ=UTC", NULL};
@@ -176,7 +254,7 @@ fam_run(const struct family *f, const char *in, size_t len, const int *chunks, i
 		av[n++] = f->opts[i];
 	}
 	if (fam_extra) {
-		av[n++] = fam_extra;
+		av[n++] = (FAM_TOOLBIT == 2 && f->dadd_extra) ? f->dadd_extra : fam_extra;
 	}
 	memset(&o, 0, sizeof(o));
 	o.stdin_data = in;
@@ -198,7 +276,7 @@ fam_cmd(char *cmd, size_t csz, const struct family *f, const char *ein)
 		k += (size_t)snprintf(cmd + k, csz - k, " %s%s%s", f->opts[i][0] == '-' ? "" : "'", f->opts[i], f->opts[i][0] == '-' ? "" : "'");
 	}
 	if (fam_extra) {
-		snprintf(cmd + k, csz - k, " %s", fam_extra);
+		snprintf(cmd + k, csz - k, " %s", (FAM_TOOLBIT == 2 && f->dadd_extra) ? f->dadd_extra : fam_extra);
 	}
 }
 
